@@ -28,6 +28,24 @@ GenNextLean ==
     \/ \E u \in fly, out \in {"success", "failure"}, new \in BOOLEAN :
           Reply(u, out, new) /\ h' = Append(h, [ev |-> "Reply", alg |-> u.alg, t |-> u.t, out |-> out, new |-> new])
 GenSpecLean == GenInit /\ [][GenNextLean]_gvars
+(* guided variant for the software update: every history starts with update -> checkout moves / reload -> load -> resume
+   and goes on, on the reloaded pipeline, with workers of BOTH revisions (stragglers still on the superseded one and fresh
+   ones), polls, a request, dispatch and replies *)
+LastEv == IF h = <<>> THEN "" ELSE h[Len(h)].ev
+GenNextUpd ==
+    \/ cycles = 0 /\ Update /\ h' = Append(h, [ev |-> "Update"])
+    \/ (\E r \in Revs \ {gitrev} : LastEv = "Update" /\ RevChange(r) /\ h' = Append(h, [ev |-> "RevChange", rev |-> r]))
+    \/ LastEv = "RevChange" /\ Load /\ h' = Append(h, [ev |-> "Load"])
+    \/ LastEv = "Load" /\ Resume /\ h' = Append(h, [ev |-> "Resume"])
+    \/ /\ cycles > 0 /\ phase = "running"
+       /\ \/ Connect /\ h' = Append(h, [ev |-> "Connect"])
+          \/ \E w \in W, r \in Revs : Register(w, r) /\ h' = Append(h, [ev |-> "Register", w |-> w, rev |-> r])
+          \/ \E r \in Revs : Poll(r) /\ h' = Append(h, [ev |-> "Poll", rev |-> r])
+          \/ \E x \in Alg, T \in (SUBSET Targets) \ {{}} : Run(x, T) /\ h' = Append(h, [ev |-> "Run", S |-> {x}, T |-> T])
+          \/ Tick /\ h' = Append(h, [ev |-> "Tick"])
+          \/ \E u \in fly, out \in {"success", "failure"}, new \in BOOLEAN :
+                Reply(u, out, new) /\ h' = Append(h, [ev |-> "Reply", alg |-> u.alg, t |-> u.t, out |-> out, new |-> new])
+GenSpecUpd == GenInit /\ [][GenNextUpd]_gvars
 View == vars
 Emit == PrintT(<<"SCHED", ToJson([h |-> h'])>>)
 SimInv == PrintT(<<"SCHED", ToJson([h |-> h])>>)
